@@ -382,6 +382,207 @@ IdLine(pr, shape, form, pg) ==
         el == Out(L!Classify(Tl))
     IN  [fam |-> "idesc", tag |-> pr.c, src |-> S!Src(Ts, S!FixSeps(Ts, AllSep(Len(Ts), "sp"))), exp |-> es, dev |-> IF el = es THEN <<>> ELSE <<el>>, bug |-> "", run |-> ""]
 
+-----------------------------------------------------------------------------
+(* family "lexctx" (7.2, 7.3, 7.4, 7.8.4, 7.8.5): code point classes x the     *)
+(* lexical contexts in which the class of a character decides.                 *)
+(*   "lt":    LineTerminator  LF CR LS PS (and the sequence CR LF)             *)
+(*   "ws":    WhiteSpace  TAB VT FF SP NBSP BOM, Zs                            *)
+(*   "other": SourceCharacters that are neither and start no token            *)
+(*   "char":  ordinary characters (only inside literals and comments)          *)
+(* Contexts: inside a string literal ("..", '..', after a backslash), inside a *)
+(* regular expression literal (body, class, after a backslash in both), in a   *)
+(* single-line comment, in a multi-line comment, between two tokens.           *)
+(*   7.8.4: a string literal contains no raw LineTerminator; backslash +       *)
+(*          LineTerminatorSequence is a LineContinuation; any other character  *)
+(*          is a SourceCharacter / NonEscapeCharacter.                          *)
+(*   7.8.5: RegularExpressionNonTerminator excludes LineTerminator everywhere  *)
+(*          (first character, body, class, after a backslash); what remains is *)
+(*          a Pattern of 15.10.1 (RegExpSpec!RxClassify; "lax"/"unsupported"   *)
+(*          are not judged).                                                    *)
+(*   7.4:   a single-line comment ends in front of the first LineTerminator;   *)
+(*          a multi-line comment that contains one counts as a LineTerminator. *)
+(*   7.2/7.3: between tokens WhiteSpace is dropped, a LineTerminator is        *)
+(*          dropped but recorded (7.9), anything else is no token.             *)
+LxProbes == <<
+    [u |-> <<10>>, c |-> "lt"], [u |-> <<13>>, c |-> "lt"], [u |-> <<13, 10>>, c |-> "lt"], [u |-> <<8232>>, c |-> "lt"], [u |-> <<8233>>, c |-> "lt"],
+    [u |-> <<9>>, c |-> "ws"], [u |-> <<11>>, c |-> "ws"], [u |-> <<12>>, c |-> "ws"], [u |-> <<32>>, c |-> "ws"], [u |-> <<160>>, c |-> "ws"],
+    [u |-> <<65279>>, c |-> "ws"], [u |-> <<8195>>, c |-> "ws"], [u |-> <<12288>>, c |-> "ws"], [u |-> <<5760>>, c |-> "ws"], [u |-> <<8239>>, c |-> "ws"], [u |-> <<8287>>, c |-> "ws"],
+    [u |-> <<0>>, c |-> "other"], [u |-> <<8>>, c |-> "other"], [u |-> <<31>>, c |-> "other"], [u |-> <<127>>, c |-> "other"], [u |-> <<133>>, c |-> "other"],
+    [u |-> <<8203>>, c |-> "other"], [u |-> <<8231>>, c |-> "other"], [u |-> <<8234>>, c |-> "other"], [u |-> <<65533>>, c |-> "other"], [u |-> <<65534>>, c |-> "other"],
+    [u |-> <<233>>, c |-> "char"], [u |-> <<55357, 56832>>, c |-> "char"]
+  >>
+LxNoTok(txt) == [t |-> "num", v |-> "", nl |-> FALSE, src |-> txt]      \* no token of clause 7 (an ill-formed numeric literal stands for it)
+LxSplit(pos) == CASE pos = 1 -> << <<>>, <<97, 98>> >> [] pos = 2 -> << <<97>>, <<98>> >> [] pos = 3 -> << <<97, 98>>, <<>> >>
+LxLitCtx == <<"str-dq", "str-sq", "str-esc", "re-body", "re-class", "re-esc", "re-class-esc">>
+(* the literal as a token (the string rules are Grammar!StrLitSV's); und: 15.10.1 does not decide *)
+LxLit(ctx, pr, pos, Dv) ==
+    LET sp == LxSplit(pos)
+        body == sp[1] \o (IF ctx \in {"str-esc", "re-esc", "re-class-esc"} THEN <<92>> ELSE <<>>) \o pr.u \o sp[2]
+    IN  IF ctx \in {"str-dq", "str-esc"} THEN [tok |-> TStr(<<34>> \o body \o <<34>>), und |-> FALSE]
+        ELSE IF ctx = "str-sq" THEN [tok |-> TStr(<<39>> \o body \o <<39>>), und |-> FALSE]
+        ELSE LET b == IF ctx \in {"re-class", "re-class-esc"} THEN <<91>> \o body \o <<93>> ELSE body
+                 txt == <<47>> \o b \o <<47>>
+                 \* otto: inside a class the scanner takes backslash + LF / CR / CR LF as a line continuation (scanEscape)
+                 cont == "DP28_regexp_class_backslash_line_terminator" \in Dv /\ ctx = "re-class-esc" /\ pr.u \in {<<10>>, <<13>>, <<13, 10>>}
+                 pc == IF cont THEN "ok" ELSE IF pr.c = "lt" THEN "syntax" ELSE RXS!RxClassify(b, <<>>)
+             IN  IF pc = "ok" THEN [tok |-> TRe(b, <<>>), und |-> FALSE] ELSE [tok |-> LxNoTok(txt), und |-> pc # "syntax"]
+LxFrames(E) == <<
+    <<TI("x"), TP("="), E, TP(";")>>,
+    <<TI("f"), TP("("), E, TP(","), TI("a"), TP(")"), TP(";")>>,
+    <<E, TP(";")>>,
+    <<TI("x"), TP("="), E, TP(";"), TI("y"), TP("="), TNum(<<50>>), TP(";")>>,
+    <<TK("function"), TI("f"), TP("("), TP(")"), TP("{"), TK("return"), E, TP(";"), TP("}")>>,
+    <<TK("if"), TP("("), E, TP(")"), TI("y"), TP("="), TP("["), E, TP("."), TI("length"), TP("]"), TP(";")>> >>
+NLxF == 6
+(* two token sequences around the place of the character: the verdict depends on a LineTerminator being there *)
+LxPairs == <<
+    [A |-> <<TI("a"), TP("="), TI("c")>>, B |-> <<TI("b"), TP("="), TNum(<<50>>), TP(";")>>],
+    [A |-> <<TI("a")>>, B |-> <<TP("++"), TP(";")>>],
+    [A |-> <<TI("x"), TP("="), TI("a")>>, B |-> <<TP("("), TI("b"), TP(")"), TP(";")>>],
+    [A |-> <<TK("function"), TI("f"), TP("("), TP(")"), TP("{"), TK("return")>>, B |-> <<TI("a"), TP(";"), TP("}")>>],
+    [A |-> <<TI("a"), TP(";")>>, B |-> <<TP(")")>>],
+    [A |-> <<TK("var"), TI("a")>>, B |-> <<TK("var"), TI("b")>>] >>
+LxSepCtx == <<"sep", "sep-sp", "line-comment", "line-comment-empty", "block-comment", "block-comment-tight">>
+SrcOf(T) == IF T = <<>> THEN <<>> ELSE S!Src(T, S!FixSeps(T, AllSep(Len(T), "sp")))
+NLFirst(TB, f) == <<[TB[1] EXCEPT !.nl = f]>> \o Tail(TB)
+LxSpec(c) ==
+    LET pr == LxProbes[c.pi] IN
+    IF c.k = "lit" THEN
+        LET lit == LxLit(LxLitCtx[c.ci], pr, c.pos, {})
+            T == LxFrames(lit.tok)[c.fi]
+        IN  [fam |-> "lexctx", tag |-> LxLitCtx[c.ci] \o "/" \o pr.c, T |-> T, T2 |-> LxFrames(LxLit(LxLitCtx[c.ci], pr, c.pos, OpenDev).tok)[c.fi],
+             src |-> SrcOf(T), und |-> lit.und]
+    ELSE
+        LET ctx == LxSepCtx[c.ci]
+            pp == LxPairs[c.fi]
+            lt == pr.c = "lt"
+            a == SrcOf(pp.A)
+            b == SrcOf(pp.B)
+            src == CASE ctx = "sep" -> a \o pr.u \o b
+                     [] ctx = "sep-sp" -> a \o <<32>> \o pr.u \o <<32>> \o b
+                     [] ctx = "line-comment" -> a \o <<32, 47, 47, 32, 99>> \o pr.u \o b
+                     [] ctx = "line-comment-empty" -> a \o <<47, 47>> \o pr.u \o b
+                     [] ctx = "block-comment" -> a \o <<32, 47, 42, 32, 99>> \o pr.u \o <<100, 32, 42, 47, 32>> \o b
+                     [] ctx = "block-comment-tight" -> a \o <<47, 42>> \o pr.u \o <<42, 47>> \o b
+            TT(Dv) ==
+                IF ctx \in {"sep", "sep-sp"} THEN
+                    (IF lt THEN pp.A \o NLFirst(pp.B, TRUE) ELSE IF pr.c = "ws" THEN pp.A \o pp.B ELSE pp.A \o <<LxNoTok(pr.u)>> \o pp.B)
+                ELSE IF ctx \in {"line-comment", "line-comment-empty"} THEN (IF lt THEN pp.A \o NLFirst(pp.B, TRUE) ELSE pp.A)
+                ELSE pp.A \o NLFirst(pp.B, lt /\ "DP03_multiline_comment_no_line_terminator" \notin Dv)
+        IN  [fam |-> "lexctx", tag |-> ctx \o "/" \o pr.c, T |-> TT({}), T2 |-> TT(OpenDev), src |-> src, und |-> FALSE]
+Und(sp) == [fam |-> sp.fam, tag |-> sp.tag, src |-> sp.src, exp |-> Cls("skip"), dev |-> <<>>, bug |-> ""]
+LxLine(c) == LET sp == LxSpec(c) IN IF sp.und THEN Und(sp) ELSE Line(sp)
+
+-----------------------------------------------------------------------------
+(* family "pragma" (7.4): the text of a comment never changes the program.     *)
+(* Comments that look like tool directives (source map / source URL pragmas:   *)
+(* 4 introducers x URL forms x payloads), cut off at every length, placed as   *)
+(* the whole text, on the last line, behind code, in front of code, followed   *)
+(* by each kind of line terminator and further code, twice; around an          *)
+(* accepted program, one that needs the line terminator for 7.9, a rejected    *)
+(* one.  Expected: Grammar!Classify of the tokens outside the comment.         *)
+(* The one documented extension of the entry point (parser.ParseFile reads an  *)
+(* inline source map from the LAST line when it starts with                    *)
+(* "//# sourceMappingURL=data:application/json" and a well-formed base64       *)
+(* payload follows the first comma) is outside ES5: such texts are not judged  *)
+(* for accept/reject (totality still is) unless the payload is the valid map.  *)
+B64Char(i) == IF i < 26 THEN 65 + i ELSE IF i < 52 THEN 71 + i ELSE IF i < 62 THEN i - 4 ELSE IF i = 62 THEN 43 ELSE 47
+RECURSIVE B64(_)
+B64(b) ==                                       \* RFC 4648 section 4 (bytes < 256)
+    IF b = <<>> THEN <<>>
+    ELSE LET n == Len(b)
+             b1 == b[1]
+             b2 == IF n >= 2 THEN b[2] ELSE 0
+             b3 == IF n >= 3 THEN b[3] ELSE 0
+             q == <<B64Char(b1 \div 4), B64Char((b1 % 4) * 16 + (b2 \div 16))>>
+                  \o (IF n >= 2 THEN <<B64Char((b2 % 16) * 4 + (b3 \div 64))>> ELSE <<61>>)
+                  \o (IF n >= 3 THEN <<B64Char(b3 % 64)>> ELSE <<61>>)
+         IN  IF n <= 3 THEN q ELSE q \o B64(SubSeq(b, 4, n))
+IsB64Char(u) == (u >= 65 /\ u <= 90) \/ (u >= 97 /\ u <= 122) \/ (u >= 48 /\ u <= 57) \/ u \in {43, 47}
+NoCRLF(p) == SelectSeq(p, LAMBDA x : x \notin {10, 13})
+B64WF(p) ==                                     \* a decoder that skips CR / LF accepts p
+    LET s == NoCRLF(p)  n == Len(s) IN
+    /\ n % 4 = 0
+    /\ n = 0 \/ /\ \A i \in 1..(n - 2) : IsB64Char(s[i])
+                /\ \/ IsB64Char(s[n - 1]) /\ (IsB64Char(s[n]) \/ s[n] = 61)
+                   \/ s[n - 1] = 61 /\ s[n] = 61
+PgP == <<47, 47, 35, 32, 115, 111, 117, 114, 99, 101, 77, 97, 112, 112, 105, 110, 103, 85, 82, 76, 61>>             \* //# sourceMappingURL=
+PgAt == <<47, 47, 64, 32, 115, 111, 117, 114, 99, 101, 77, 97, 112, 112, 105, 110, 103, 85, 82, 76, 61>>            \* //@ sourceMappingURL=
+PgSp == <<47, 47, 32, 35, 32, 115, 111, 117, 114, 99, 101, 77, 97, 112, 112, 105, 110, 103, 85, 82, 76, 61>>        \* // # sourceMappingURL=
+PgUp == <<47, 47, 35, 32, 83, 111, 117, 114, 99, 101, 77, 97, 112, 112, 105, 110, 103, 85, 82, 76, 61>>             \* //# SourceMappingURL=
+PgBlk == <<47, 42, 35, 32, 115, 111, 117, 114, 99, 101, 77, 97, 112, 112, 105, 110, 103, 85, 82, 76, 61>>           \* /*# sourceMappingURL=
+PgSrcURL == <<47, 47, 35, 32, 115, 111, 117, 114, 99, 101, 85, 82, 76, 61, 97, 46, 106, 115>>                         \* //# sourceURL=a.js
+PgData == <<100, 97, 116, 97, 58, 97, 112, 112, 108, 105, 99, 97, 116, 105, 111, 110, 47, 106, 115, 111, 110>>      \* data:application/json
+PgText == <<100, 97, 116, 97, 58, 116, 101, 120, 116, 47, 112, 108, 97, 105, 110>>                                    \* data:text/plain
+PgHttp == <<104, 116, 116, 112, 58, 47, 47, 101, 120, 97, 109, 112, 108, 101, 46, 99, 111, 109, 47, 97, 46, 106, 115, 46, 109, 97, 112>>   \* http://example.com/a.js.map
+PgCs == <<59, 99, 104, 97, 114, 115, 101, 116, 61, 117, 116, 102, 45, 56>>                                            \* ;charset=utf-8
+PgB64 == <<59, 98, 97, 115, 101, 54, 52>>                                                                              \* ;base64
+PgPar == <<59, 97, 61, 98, 44, 99>>                                                                                    \* ;a=b,c
+MapOK == <<123, 34, 118, 101, 114, 115, 105, 111, 110, 34, 58, 51, 44, 34, 115, 111, 117, 114, 99, 101, 115, 34, 58, 91, 93, 44, 34, 110, 97, 109, 101, 115, 34, 58, 91, 93, 44,
+           34, 109, 97, 112, 112, 105, 110, 103, 115, 34, 58, 34, 34, 125>>                                           \* {"version":3,"sources":[],"names":[],"mappings":""}
+MapCut == SubSeq(MapOK, 1, 23)                                                                                         \* {"version":3,"sources":    (no JSON text)
+MapOK64 == B64(MapOK)
+PgTexts == <<
+    [n |-> "data-charset-base64-map", u |-> PgP \o PgData \o PgCs \o PgB64 \o <<44>> \o MapOK64, close |-> <<>>],
+    [n |-> "data-base64-map", u |-> PgP \o PgData \o PgB64 \o <<44>> \o MapOK64, close |-> <<>>],
+    [n |-> "data-base64-no-json", u |-> PgP \o PgData \o PgB64 \o <<44>> \o B64(MapCut), close |-> <<>>],
+    [n |-> "data-base64-illegal", u |-> PgP \o PgData \o PgB64 \o <<44, 64, 64, 64, 64>>, close |-> <<>>],
+    [n |-> "data-raw-json", u |-> PgP \o PgData \o <<44>> \o MapOK, close |-> <<>>],
+    [n |-> "data-comma-base64", u |-> PgP \o PgData \o <<44>> \o B64(MapCut), close |-> <<>>],
+    [n |-> "data-parameter-with-comma", u |-> PgP \o PgData \o PgPar \o PgB64 \o <<44>> \o MapOK64, close |-> <<>>],
+    [n |-> "other-media-type", u |-> PgP \o PgText \o PgB64 \o <<44>> \o B64(MapCut), close |-> <<>>],
+    [n |-> "http-url", u |-> PgP \o PgHttp, close |-> <<>>],
+    [n |-> "at-introducer", u |-> PgAt \o PgData \o PgB64 \o <<44>> \o B64(MapCut), close |-> <<>>],
+    [n |-> "spaced-introducer", u |-> PgSp \o PgData \o PgB64 \o <<44>> \o B64(MapCut), close |-> <<>>],
+    [n |-> "other-case", u |-> PgUp \o PgData \o PgB64 \o <<44>> \o B64(MapCut), close |-> <<>>],
+    [n |-> "source-url", u |-> PgSrcURL, close |-> <<>>],
+    [n |-> "block-comment", u |-> PgBlk \o PgData \o PgB64 \o <<44>> \o B64(MapCut), close |-> <<32, 42, 47>>]
+  >>
+PgProgs == <<
+    [A |-> <<TK("var"), TI("abc"), TP("="), TNum(<<49>>), TP(";")>>, B |-> <<TI("abc"), TP("++"), TP(";")>>],
+    [A |-> <<TI("a"), TP("="), TI("c")>>, B |-> <<TI("b"), TP("="), TNum(<<50>>), TP(";")>>],
+    [A |-> <<TK("var"), TP("="), TP(";")>>, B |-> <<TI("x"), TP(";")>>] >>
+PgPlaces == <<"only", "last-line", "same-line", "lf-after", "code-after-lf", "code-after-cr", "code-after-ls", "code-after-ps", "crlf", "crlf-last", "after-cr", "twice", "first-line">>
+PgPlace(pl, TA, TB, c) ==          \* [src, T]: the text and the tokens outside the comment c
+    LET a == SrcOf(TA)  b == SrcOf(TB)  AB == TA \o NLFirst(TB, TRUE) IN
+    CASE pl = "only" -> [src |-> c, T |-> <<>>]
+      [] pl = "last-line" -> [src |-> a \o <<10>> \o c, T |-> TA]
+      [] pl = "same-line" -> [src |-> a \o <<32>> \o c, T |-> TA]
+      [] pl = "lf-after" -> [src |-> a \o <<10>> \o c \o <<10>>, T |-> TA]
+      [] pl = "code-after-lf" -> [src |-> a \o <<10>> \o c \o <<10>> \o b, T |-> AB]
+      [] pl = "code-after-cr" -> [src |-> a \o <<10>> \o c \o <<13>> \o b, T |-> AB]
+      [] pl = "code-after-ls" -> [src |-> a \o <<10>> \o c \o <<8232>> \o b, T |-> AB]
+      [] pl = "code-after-ps" -> [src |-> a \o <<10>> \o c \o <<8233>> \o b, T |-> AB]
+      [] pl = "crlf" -> [src |-> a \o <<13, 10>> \o c \o <<13, 10>> \o b, T |-> AB]
+      [] pl = "crlf-last" -> [src |-> a \o <<13, 10>> \o c, T |-> TA]
+      [] pl = "after-cr" -> [src |-> a \o <<13>> \o c, T |-> TA]
+      [] pl = "twice" -> [src |-> a \o <<10>> \o c \o <<10>> \o c, T |-> TA]
+      [] pl = "first-line" -> [src |-> c \o <<10>> \o a \o <<32>> \o b, T |-> TA \o TB]
+RECURSIVE LastLF(_, _)
+LastLF(s, i) == IF i = 0 \/ s[i] = 10 THEN i ELSE LastLF(s, i - 1)
+RECURSIVE FirstComma(_, _)
+FirstComma(s, i) == IF i > Len(s) THEN 0 ELSE IF s[i] = 44 THEN i ELSE FirstComma(s, i + 1)
+PgSniff == PgP \o PgData
+ExtKind(src) ==                  \* "none": plain ES5 | "map": the valid inline map (changes nothing) | "ext": the extension decides
+    LET ll == SubSeq(src, LastLF(src, Len(src)) + 1, Len(src))
+        ci == FirstComma(ll, 1)
+        pay == SubSeq(ll, ci + 1, Len(ll))
+    IN  IF Len(ll) < Len(PgSniff) \/ SubSeq(ll, 1, Len(PgSniff)) # PgSniff \/ ci = 0 THEN "none"
+        ELSE IF ~B64WF(pay) THEN "none"
+        ELSE IF NoCRLF(pay) = MapOK64 THEN "map" ELSE "ext"
+PgBlock == SetToSeq((1..Len(PgTexts)) \X (1..Len(PgPlaces)))
+PgK == IF NSel = 0 THEN 1 ELSE 8        \* quick: one cut in 8 (over placements and programs every cut is taken), and the complete text
+PgLines(ti, pi, gi) ==
+    LET tx == PgTexts[ti]
+        pg == PgProgs[gi]
+        n0 == Len(tx.u)
+        full == PgPlace(PgPlaces[pi], pg.A, pg.B, tx.u \o tx.close)
+        base == Line([fam |-> "pragma", tag |-> tx.n \o "/" \o PgPlaces[pi], T |-> full.T, T2 |-> full.T, src |-> full.src])
+        cuts == {n \in 2..n0 : n = n0 \/ (n + ti + 3 * pi + gi + Salt) % PgK = 0}
+    IN  [n \in cuts |->
+            LET src == PgPlace(PgPlaces[pi], pg.A, pg.B, SubSeq(tx.u, 1, n) \o tx.close).src
+            IN  IF ExtKind(src) = "ext" THEN Und([base EXCEPT !.src = src]) ELSE [base EXCEPT !.src = src]]
+
 MInit == cs = None /\ blk \in {<<f, j>> : f \in Fams, j \in 1..NSeeds}
 MNext ==
     /\ cs = None
@@ -401,6 +602,15 @@ MNext ==
          [] blk[1] = "rejunk" -> blk[2] <= 64 /\ \E j \in {x \in 1..Len(ReJunkBodies) : x % 64 = blk[2] - 1}, fl \in {<<>>, <<103>>} :
                                  cs' = [t |-> "rejunk", fam |-> "rejunk", b |-> ReJunkBodies[j], f |-> fl]
          [] blk[1] = "utf8" -> blk[2] <= Len(Utf8Ctx) /\ \E bi \in 1..Len(BadSeqs) : cs' = [t |-> "utf8", fam |-> "utf8", ci |-> blk[2], bi |-> bi]
+         [] blk[1] = "lexctx" -> blk[2] <= Len(LxProbes) /\
+                                 \/ \E ci \in 1..Len(LxLitCtx), pos \in 1..3, fi \in 1..NLxF :
+                                        cs' = [t |-> "lexctx", fam |-> "lexctx", k |-> "lit", pi |-> blk[2], ci |-> ci, pos |-> pos, fi |-> fi]
+                                 \/ \E ci \in 1..Len(LxSepCtx), fi \in 1..Len(LxPairs) :
+                                        /\ LxProbes[blk[2]].c # "char" \/ LxSepCtx[ci] \notin {"sep", "sep-sp"}
+                                        /\ cs' = [t |-> "lexctx", fam |-> "lexctx", k |-> "sep", pi |-> blk[2], ci |-> ci, pos |-> 0, fi |-> fi]
+         [] blk[1] = "pragma" -> blk[2] <= Len(PgBlock) /\ \E gi \in 1..Len(PgProgs) :
+                                 /\ PgPlaces[PgBlock[blk[2]][2]] # "only" \/ gi = 1
+                                 /\ cs' = [t |-> "pragma", fam |-> "pragma", st |-> <<PgBlock[blk[2]][1], PgBlock[blk[2]][2], gi>>]
 MLines(c) ==
     IF c.t = "mut" THEN LET T2 == Mutate(c.T, c.m) IN <<Spec0("mut", c.m.k, T2, MutSeps(T2, c.m), FALSE, <<>>)>>
     ELSE IF c.t = "one" THEN <<Spec0(c.fam, c.tag, c.T, AllSep(Len(c.T), "sp"), FALSE, <<>>)>>
@@ -411,5 +621,7 @@ MEmit ==
     \/ (cs.t = "utf8" /\ PrintT("VJSON " \o ToJson(Utf8Line(cs.ci, cs.bi))))
     \/ (cs.t = "rejunk" /\ LET ls == ReJunkLines(cs.b, cs.f) IN \A j \in 1..Len(ls) : PrintT("VJSON " \o ToJson(ls[j])))
     \/ (cs.t = "idesc" /\ PrintT("VJSON " \o ToJson(IdLine(IdProbes[cs.pi], cs.shape, cs.form, cs.pg))))
-    \/ (cs.t \notin {"utf8", "rejunk", "idesc"} /\ LET ls == MLines(cs) IN \A j \in 1..Len(ls) : PrintT("VJSON " \o ToJson(Line(ls[j]))))
+    \/ (cs.t = "lexctx" /\ PrintT("VJSON " \o ToJson(LxLine(cs))))
+    \/ (cs.t = "pragma" /\ LET ls == PgLines(cs.st[1], cs.st[2], cs.st[3]) IN \A n \in DOMAIN ls : PrintT("VJSON " \o ToJson(ls[n])))
+    \/ (cs.t \notin {"utf8", "rejunk", "idesc", "lexctx", "pragma"} /\ LET ls == MLines(cs) IN \A j \in 1..Len(ls) : PrintT("VJSON " \o ToJson(Line(ls[j]))))
 =============================================================================
